@@ -680,6 +680,60 @@ fn run_byz_encoder(plan: &Plan, lib: &dyn Lib, rec: &mut Rec) {
             }
         }
     }
+    // a larger committee (2-of-9): two payloads off the subgroup whose stray parts cancel in the plain sum, at drawn positions;
+    // and shares the LIBRARY derives over a hostile base point (a ciphertext whose `u` — a public field — is g*k + T, T of small
+    // order): their payloads are off the subgroup, and every consumer must say so
+    if let Some(d9) = deal(rec, lib, g, 4, 2, 9, plan.seed ^ 0x99) {
+        let msg = b"nine share users".to_vec();
+        let scheme = if x.chance(1, 2) { 0u8 } else { 2 };
+        let parts: Vec<Vec<u8>> = d9.shares.iter().filter_map(|s| rec.call(lib, g, Op::ShareSign, &[s, &[scheme], &msg]).first().map(|b| b.to_vec())).collect();
+        let ct = rec.call(lib, g, Op::SignCrypt, &[&d9.pk, &[scheme], &msg]).first().map(|b| b.to_vec()).unwrap_or_default();
+        let ds: Vec<Vec<u8>> = d9.shares.iter().filter_map(|s| rec.call(lib, g, Op::ScShare, &[&ct, s]).first().map(|b| b.to_vec())).collect();
+        if parts.len() == 9 && ds.len() == 9 {
+            let sites: [(&str, Op, usize, &Vec<Vec<u8>>); 3] = [("Signature::from_shares", Op::SigFromShares, 2, &parts), ("PublicKey::from_shares", Op::PkFromShares, 1, &d9.pk_shares), ("SignCryptDecryptionKey::from_shares", Op::DkFromShares, 1, &ds)];
+            for (name, op, hdr, items) in sites {
+                let len = items[0].len() - hdr;
+                let (a, b) = (x.below(9) as usize, (x.below(8) as usize + 1));
+                let b = (a + b) % 9;
+                for (kind, r) in [("mixed", Pt::from_bytes_unchecked(&refimpl::off_subgroup_point(len, plan.seed ^ 0x9A)).unwrap()), ("torsion", refimpl::small_order_point(len, plan.seed ^ 0x9B))] {
+                    let (Some(pa), Some(pb)) = (Pt::from_bytes(&items[a][hdr..]), Pt::from_bytes(&items[b][hdr..])) else { continue };
+                    let (ba, bb) = (pa.add(&r).to_bytes(), pb.sub(&r).to_bytes());
+                    if refimpl::classify_point(&ba) != PointClass::OnCurveNotInSubgroup || refimpl::classify_point(&bb) != PointClass::OnCurveNotInSubgroup {
+                        continue;
+                    }
+                    let set: Vec<Vec<u8>> = (0..9).map(|i| if i == a { [&items[a][..hdr], ba.as_slice()].concat() } else if i == b { [&items[b][..hdr], bb.as_slice()].concat() } else { items[i].clone() }).collect();
+                    let refs: Vec<&[u8]> = set.iter().map(|v| v.as_slice()).collect();
+                    rec.fault("byz-compensating-payloads");
+                    rec.case(&[16, g as u64, 211, op as u64, kind.len() as u64], true);
+                    let o = rec.call(lib, g, op, &refs);
+                    rec.expect("C16", "invalid-share-payload-reported-at-use", !o.is_ok(), || format!("compensating-{}-pair-in-nine {} | payloads {} and {} of a set of 9 replaced by P+R and P'-R (R outside the subgroup) were combined", kind, name, a + 1, b + 1));
+                }
+            }
+            // hostile base
+            let k = refimpl::scalar_from_u64(3 + plan.seed % 1000);
+            let base = Pt::from_bytes(&d9.pk).unwrap().gen_like().mul(&k).add(&refimpl::small_order_point(pl, plan.seed ^ 0x9C)).to_bytes();
+            if refimpl::classify_point(&base) == PointClass::OnCurveNotInSubgroup {
+                let derived: Vec<Option<Vec<u8>>> = d9.shares.iter().map(|s| rec.call(lib, g, Op::ScShareOverBase, &[&base, s]).first().map(|b| b.to_vec())).collect();
+                let bad: Vec<(usize, Vec<u8>)> = derived.iter().enumerate().filter_map(|(i, o)| o.clone().map(|b| (i, b))).filter(|(_, b)| refimpl::classify_point(&b[1..]) == PointClass::OnCurveNotInSubgroup).collect();
+                rec.fault("byz-hostile-base-point");
+                if bad.len() >= 2 {
+                    rec.case(&[16, g as u64, 212, bad.len() as u64], true);
+                    let refs: Vec<&[u8]> = bad.iter().map(|(_, b)| b.as_slice()).collect();
+                    let o = rec.call(lib, g, Op::DkFromShares, &refs);
+                    rec.expect("C16", "invalid-share-payload-reported-at-use", !o.is_ok(), || format!("derived-over-hostile-base SignCryptDecryptionKey::from_shares | {} shares the library derived over a base point outside the subgroup (payloads outside the subgroup) were combined", bad.len()));
+                    let o = rec.call(lib, g, Op::PkFromShares, &refs);
+                    rec.expect("C16", "invalid-share-payload-reported-at-use", !o.is_ok(), || "derived-over-hostile-base PublicKey::from_shares | payloads outside the subgroup were combined".to_string());
+                    let (i0, b0) = &bad[0];
+                    let o = rec.call(lib, g, Op::DShareVerify, &[b0, &d9.pk_shares[*i0], &ct]);
+                    rec.expect("C16", "invalid-share-payload-reported-at-use", !o.is_ok(), || "derived-over-hostile-base SignDecryptionShare::verify | a payload outside the subgroup verified".to_string());
+                    let mut da: Vec<&[u8]> = vec![&ct];
+                    da.extend(refs.iter().copied());
+                    let o = rec.call(lib, g, Op::ScDecryptShares, &da);
+                    rec.expect("C16", "invalid-share-payload-reported-at-use", !matches!(o.opt_value(), Some(Some(_))), || "derived-over-hostile-base decrypt_with_shares | a plaintext came out".to_string());
+                }
+            }
+        }
+    }
     // secrets and challenges imported from bytes are never zero
     let r_be: Vec<u8> = {
         let mut b = refimpl::scalar_to_be(&refimpl::scalar_neg_u64(1));
@@ -982,6 +1036,34 @@ fn run_hostile_decoders(plan: &Plan, lib: &dyn Lib, rec: &mut Rec) {
     // share combination and list entry points with degenerate sets
     for op in [Op::SigFromShares, Op::PkFromShares, Op::Combine, Op::DkFromShares, Op::EgDkFromShares, Op::Aggregate, Op::MultiSig, Op::MultiPk] {
         rec.call(lib, g, op, &[]);
+    }
+    // ... and with MORE shares than there are identifiers (a re-sent share, a flooding participant): 255, 256, 257, 300, 512
+    // entries with identifiers cycling through 1..=255 (and 0), into every recombination site incl. direct decryption
+    if pick % 4 == 0 {
+        if let Some(d) = deal(rec, lib, g, 4, 2, 3, plan.seed ^ 0xF100D) {
+            let msg = b"flood".to_vec();
+            let parts: Vec<Vec<u8>> = d.shares.iter().filter_map(|s| rec.call(lib, g, Op::ShareSign, &[s, &[0], &msg]).first().map(|b| b.to_vec())).collect();
+            let ct = rec.call(lib, g, Op::SignCrypt, &[&d.pk, &[0], &msg]).first().map(|b| b.to_vec()).unwrap_or_default();
+            let ds: Vec<Vec<u8>> = d.shares.iter().filter_map(|s| rec.call(lib, g, Op::ScShare, &[&ct, s]).first().map(|b| b.to_vec())).collect();
+            let ect = rec.call(lib, g, Op::EgEncrypt, &[&d.pk, &d.sk]).first().map(|b| b.to_vec()).unwrap_or_default();
+            let es: Vec<Vec<u8>> = d.shares.iter().filter_map(|s| rec.call(lib, g, Op::EgShare, &[s, &ect]).first().map(|b| b.to_vec())).collect();
+            if parts.len() == 3 && ds.len() == 3 && es.len() == 3 {
+                for count in [255usize, 256, 257, 300, 512] {
+                    for (op, items, idpos, lead) in [(Op::SigFromShares, &parts, 1usize, None), (Op::PkFromShares, &d.pk_shares, 0, None), (Op::Combine, &d.shares, 0, None), (Op::DkFromShares, &ds, 0, None), (Op::EgDkFromShares, &es, 0, None), (Op::ScDecryptShares, &ds, 0, Some(&ct))] {
+                        for with_zero in [false, true] {
+                            let list: Vec<Vec<u8>> = (0..count).map(|i| { let mut b = items[i % 3].clone(); b[idpos] = if with_zero { (i % 256) as u8 } else { (i % 255 + 1) as u8 }; b }).collect();
+                            let mut a: Vec<&[u8]> = vec![];
+                            if let Some(c0) = lead {
+                                a.push(c0);
+                            }
+                            a.extend(list.iter().map(|v| v.as_slice()));
+                            rec.fault("flooded-share-list");
+                            rec.call(lib, g, op, &a);
+                        }
+                    }
+                }
+            }
+        }
     }
     rec.sample(|| format!("g={} hostile decoder inputs over {} specimens (slice {}), all codecs", g.name(), sps.len(), pick % 4));
     c.finish(rec);
